@@ -11,13 +11,13 @@ CLAIMED = {
    text="Decides that the four per-node mechanisms agreement rests on are intact on every path: acceptance behind an M-of-N current-view commit quorum, (pre)commit behind an M-of-N current-view preparation quorum containing the request, commit lock on ChangeView sends and view changes, view change behind an M-of-N ChangeView quorum, F=(N-1) div 3 and M=N-F; (pre)commits verified on store under the sender's key and re-validated when the proposal arrives — the latter is the known finding D6 on this tree (early commits are not re-validated; an equivocating primary can split two honest nodes), printed as KNOWN-FINDING. A structural necessary condition: breaking any of them breaks agreement.",
    note="Does NOT decide agreement itself (joint histories of several nodes under an adversarial scheduler, quorum intersection across nodes, amnesia restarts): no static argument in reach composes per-node path facts into that. " + A, ref="4/C01"),
  "C02": dict(technique="guard + quorum-atom analysis, ownership and provenance rules",
-   text="ProcessBlock/ProcessPreBlock have one call site each, proven to be behind an M-of-N quorum counted over current-view entries of the per-validator table with all transactions present; stores into per-validator tables are keyed by the payload's own validator index; PrevHash/BlockIndex come from the ledger callbacks, Timestamp/Nonce/TransactionHashes only from the admitted proposal or the proposal builder; transactions filled in proposal order; every Verify call checks a payload's own signature under its sender's key.",
+   text="ProcessBlock/ProcessPreBlock have one call site each, proven to be behind an M-of-N quorum counted over current-view entries of the per-validator table with all transactions present; stores into per-validator tables are keyed by the payload's own validator index; PrevHash/BlockIndex come from the ledger callbacks, Timestamp/Nonce/TransactionHashes only from the admitted proposal or the proposal builder; transactions filled in proposal order; every Verify call checks a payload's own signature under its sender's key; a stored current-view (pre)commit stays unverified only while the header/pre-block cannot be built (or a transaction is missing and completion re-validates), re-validation precedes every call that can count the entries, and re-validation builds the header rather than reading an empty cache (G-VERIFY-WINDOW).",
    note="Does not decide that Block.Verify is a sound signature check, nor callback contracts. The re-validation of early (pre)commits is decided by D-REVALIDATE, whose two reports on the pinned tree are the known finding D6 (known_findings.json). " + A, ref="4/C02"),
  "C03": dict(technique="typed send-site guard analysis (all paths), ownership",
    text="Every typed broadcast site is behind its 'not said yet' guard on every path from every API entry; own Commit/PreCommit constructed only with an empty own slot; commit tables cleared only by the height reset; ChangeView sends and view changes behind the commit lock; view monotone; epoch fields owned by the epoch writer; recovery builder re-sends stored payloads only; an own (pre)commit / preparation is stored only with the proposal recorded (L1-OBL); no persistent state outside Context other than call-scoped flags and the future-message cache (F-DBFT-STATE).",
    note="Not decided: identity of a commit after a peer's recovery compaction, uniqueness across process restarts, own-signature verification failure. " + A, ref="4/C03"),
  "C04": dict(technique="guard + quorum-atom + must-precede (event) analysis",
-   text="Stores of received preparations are behind their admission condition; a PrepareResponse is built only with the proposal recorded, all transactions present, after the block verifier returned true, naming the stored proposal's hash; (pre)commit only behind an M-of-N current-view preparation quorum containing the request; mismatching responses are purged; view change only behind an M-of-N ChangeView quorum; transactions enter the context only behind the 'requested' admission, so that the length test of 'all transactions present' means what it says.",
+   text="Stores of received preparations are behind their admission condition; a PrepareResponse is built only with the proposal recorded, all transactions present, after the block verifier returned true, naming the stored proposal's hash; (pre)commit only behind an M-of-N current-view preparation quorum containing the request; mismatching responses are purged; view change only behind an M-of-N ChangeView quorum; the primary purges responses that arrived before its own proposal (defect D10, fixed); the designated primary is (h-v) mod N in normal form; transactions enter the context only behind the 'requested' admission, so that the length test of 'all transactions present' means what it says.",
    note="Not decided: that Hash() identifies the proposal, behaviour of VerifyBlock itself, honesty of the counted validators. " + A, ref="4/C04"),
  "C05": dict(technique="guard analysis with admission facts, field-coverage of the reset, sibling agreement of cache writer/replayer",
    text="ProcessBlock only while the block-sent flag is unset, flag set after every successful callback and cleared only by the height reset; every effect reachable from the event entries is behind the not-BlockSent admission; every Context field is re-initialised on every view-0 path of the epoch writer except a reasoned carry-over table; every cached payload kind has a bucket that is replayed on every initialisation; state kept next to the Context (fields of DBFT itself) is the config, the mutex, the cache or a call-scoped flag that is false again at every exit of the function that sets it.",
@@ -26,14 +26,14 @@ CLAIMED = {
    text="N, F, M and GetPrimaryIndex are proven to have the normal forms len(Validators), (N-1) div 3, N-F and ((h-v) mod N corrected into [0,N)) in signed arithmetic, for all N>=1, all heights and views on a 64-bit int; purity and single definition of PrimaryIndex. The quorum-intersection and rotation statements are arithmetic consequences of these forms. The uses are decided too: the acceptance, pre-acceptance, (pre)commit and view-change decisions compare their counts with M in normal form at every site, the recovery responder window is F+1, and the exported F-based predicates mean what they say.",
    note="32-bit builds are out of scope (int(uint32) is lossy there). " + A, ref="4/C06"),
  "C07": dict(technique="guard + quorum-atom analysis, flag typestate",
-   text="Anti-MEV phase order at every site: pre-commit paths and the optional callbacks only with the extension enabled; Commit under anti-MEV only with own PreCommit, M-of-N PreCommit quorum and processed pre-block; ProcessPreBlock once per height (flag discipline); header only after the pre-block; enabling predicate has the stated form; and each check function takes its step (pre-block processed and Commit sent once the node has its own PreCommit, M PreCommits and all transactions) on every exit not excused by a missing transaction/quorum/proposal, a failed callback or the node's role.",
+   text="Anti-MEV phase order at every site: pre-commit paths and the optional callbacks only with the extension enabled; Commit under anti-MEV only with own PreCommit, M-of-N PreCommit quorum and processed pre-block; ProcessPreBlock once per height (flag discipline); header only after the pre-block; enabling predicate has the stated form and compares the enabling height without narrowing it (defect D9, fixed); and each check function takes its step (pre-block processed and Commit sent once the node has its own PreCommit, M PreCommits and all transactions) on every exit not excused by a missing transaction/quorum/proposal, a failed callback or the node's role.",
    note="Not decided: behaviour with failing callbacks beyond 'flag not set', multi-node recovery interplay. " + A, ref="4/C07"),
  "C08": dict(technique="sibling agreement (cache writer / replayer)",
    text="Decides only structural necessary conditions named by the anchors: every kind of early payload is kept (whatever the node's own state) and replayed on every initialisation, the cache is created only by Start and the entered height is removed; the header is built only after the pre-block; early (pre)commits are re-verified under their sender's key; the cache is looked up after the epoch write; mismatching early responses are purged when the proposal is stored; every initialisation arms the timer; each of the four check functions takes its step whenever its preconditions hold, whatever the order in which they came to hold (no exit on a 'nothing to do' flag: M-PHASE-PROGRESS); no ChangeView for an idle backup on its first view-0 timeout and a forced timeout only while subscribed.",
    note="That all nodes decide in view 0 without timeouts depends on timer values and multi-node schedules: not applicable to static analysis and not claimed. " + A, ref="4/C08"),
  "C10": dict(technique="must-pass-through over enumerated paths with callee summaries, ownership/provenance of the timer epoch",
-   text="Inductive argument with static obligations: epoch fields written only by the epoch writer; Timer.Reset only from one wrapper with the current (BlockIndex, ViewNumber); every initialiser path arms after the epoch write; every admitted timeout path re-arms; durations are non-negative by construction where measured quantities are subtracted and every duration handed to the timer is built from configured durations and the timer's own clock.",
-   note="Not decided: adequacy/overflow of durations for large views, mis-configured max<min block time (A10), that the injected timer fires. " + A, ref="4/C10"),
+   text="Inductive argument with static obligations: epoch fields written only by the epoch writer; Timer.Reset only from one wrapper with the current (BlockIndex, ViewNumber); every initialiser path arms after the epoch write; every admitted timeout path re-arms; durations are non-negative by construction where measured quantities are subtracted and every duration handed to the timer is built from configured durations and the timer's own clock; left shifts of durations must be by a small constant or a capped amount - the three uncapped `timePerBlock << (view+1)` sites are the known finding D12 (negative duration from view 28 on with a 10 s block time), printed as KNOWN-FINDING.",
+   note="Not decided: adequacy of durations, mis-configured max<min block time (A10), that the injected timer fires. " + A, ref="4/C10"),
  "C12": dict(technique="stale-derived-value analysis, must-pass-through, rejection-set check",
    text="An index derived from MissingTransactions is never used after a call that may rewrite the list; completing a proposal on a backup ends in a PrepareResponse or a ChangeView; OnTransaction rejects deliveries only for the allowed reasons; RequestTx receives the missing list.",
    note="Not decided: double deliveries, deliveries for a previous view's proposal beyond the rejection set, timing against the view timer. " + A, ref="4/C12"),
@@ -42,7 +42,7 @@ CLAIMED = {
    text="Structural necessary conditions of recovery: the recovery message carries every evidence table (commits once the node has its own), the handler consumes every payload getter of the RecoveryMessage interface through OnReceive, LastChangeViewPayloads is refreshed on a view change from the table as it was before the reset cleared it, a ChangeView for a view not above the receiver's reaches the recovery-request handler, the responder window is F+1 consecutive indices after the requester modulo N, every admitted timeout says something or is an extension deferral and re-arms, a node with an own (pre)commit always answers a recovery request, each check function takes its step whenever its preconditions hold (M-PHASE-PROGRESS).",
    note="Progress, bounds on the deciding view, partitions and restarts need multi-node timed executions: not applicable to static analysis and not claimed. " + A, ref="4/C09"),
  "C11": dict(technique="effect-free-prefix guard rule, index provenance with backward demand, optional-callback guards, stale-index analysis",
-   text="In each handler every effect site is behind that handler's admission condition (so inadmissible and duplicate inputs reach no effect); every index into a per-validator table is a range key, an admitted sender index, MyIndex under MyIndex>=0 or the primary index; optional callbacks only under their enabling fact; stored slots dereferenced only when non-nil; no stale derived index; every integer division has a divisor that cannot be zero (constant, array length, validator count under the documented contract, or a Config field refused by checkConfig when zero) and New hands out an instance only after checkConfig returned nil.",
+   text="In each handler every effect site is behind that handler's admission condition (so inadmissible and duplicate inputs reach no effect); every index into a per-validator table is a range key, an admitted sender index, MyIndex under MyIndex>=0 or the primary index; optional callbacks only under their enabling fact; stored slots and the lazily built block objects dereferenced only when non-nil (defect D11, fixed); the primary formula in normal form; no stale derived index; every integer division has a divisor that cannot be zero (constant, array length, validator count under the documented contract, or a Config field refused by checkConfig when zero) and New hands out an instance only after checkConfig returned nil.",
    note="Panic freedom is decided for table indexing, optional callbacks, stale indices and slot derefs only - not for nil results of application callbacks, type assertions in payload implementations, an empty validator list (documented panic), misuse before Start, Logger policies. Equality of the whole state on accepted-duplicate paths is not decided. " + A, ref="4/C11"),
  "C15": dict(technique="symbolic final-value + path-condition check of the max idiom, affine normal form of the truncation, provenance",
    text="On every non-declining path of the proposal builder Timestamp is the maximum of lastBlockTimestamp+TimestampIncrement and the truncated clock (decided from path conditions and the symbolic final value), the truncation has normal form (UnixNano(Timer.Now()) div I)*I, lastBlockTimestamp comes only from the initialiser's parameter, hashes/transactions are copied from the pool result index by index, NewPrepareRequest receives (Timestamp, Nonce, TransactionHashes), the own block is rebuilt from those fields after every epoch write, and the per-view proposal fields are dropped on every view change (closed-world table of Context fields).",
@@ -61,7 +61,7 @@ CLAIMED = {
    text="For every type with EncodeBinary/DecodeBinary each wire field is read by the encoder and assigned by the decoder on every successful path; gob structs have only exported fields; decoders propagate every error; the recovery message packs every kind and each Get* reconstruction uses the kind, body type and list of its arm and copies every body field, stamping the rebuilt proposal with the primary index; Payload.Hash is Hash256 of the unsigned encoding (and does not memoise while a body type can still be mutated through its interface); block Hash/Sign/Verify feed GetHashData without the signature; constructors use every parameter in its role; ECDSA Sign/Verify digest alike; Merkle parents hash left||right.",
    note="Collision resistance, ECDSA soundness, gob's robustness on arbitrary bytes, the Merkle odd-level duplication ambiguity and value-dependent panics on short inputs are not decided. " + A, ref="4/C19"),
  "C20": dict(technique="syntactic type inference and guard discipline over the SANY semantic tree (no model checking)",
-   text="TypeOK is shown inductive for every MaxView and fault set by typing Init and every primed assignment reachable from Next against the shapes TypeOK declares (130 assignments in the five specs); InvFaultNodesCount follows from the membership guards on bad/dead and the ASSUME; for the no-fork invariant only the presence of the quorum guards, the commit lock (where the spec has one; decided by evaluating the action's guard with the node in the locked state) and F/M definitions is checked; every action is linked into Next and launch-file invariants exist.",
+   text="TypeOK is shown inductive for every MaxView and fault set by typing Init and every primed assignment reachable from Next against the shapes TypeOK declares (130 assignments in the five specs); InvFaultNodesCount follows from the membership guards on bad/dead and the ASSUME; for the no-fork invariant only structural necessary conditions are checked: in every alternative of each guard (negation-normal form with helper operators, IF, bounded quantifiers over literal sets and action parameters expanded) a commit/accept transition rests on an M-quorum of the right message kinds of the node's current view and a view increase on an M-quorum of ChangeView-kind messages or the leader's message; per-spec locks are decided by evaluating the guard with the node in the locked state (including integer CASE tables); F/M definitions; every action is linked into Next and launch-file invariants exist.",
    note="InvTwoBlocksAccepted itself, InvDeadlock and liveness are reachability facts of the product state space and are NOT decided (they need a model checker, another technique family). Assumption T1: CHOOSE is applied where a witness exists.", ref="4/C20"),
  "C13": dict(
    technique="all-paths guard analysis (path-condition algebra + backward demand over the resolved call graph)",
